@@ -496,6 +496,60 @@ def em(e):
     raise AssertionError(k)
 
 
+def symx(e):
+    """IR of the expression as vector._lib.SympyLib evaluates it (probed at generation time, see probe_sympylib):
+    nan_to_num(e, ...) -> e; maximum/minimum(a, b) -> a unless a is a literal constant, then b; copysign(a, b) -> a;
+    isclose(a, b, ...) -> a == b."""
+    if not isinstance(e, tuple) or not e:
+        return e
+    k = e[0]
+    if k == "nan_to_num":
+        return symx(e[1])
+    if k == "lib2" and e[1] in ("maximum", "minimum"):
+        return symx(e[3]) if e[2][0] == "const" else symx(e[2])
+    if k == "lib2" and e[1] == "copysign":
+        return symx(e[2])
+    if k == "isclose":
+        return ("eq", symx(e[1]), symx(e[2]))
+    if k == "call":
+        return ("call", e[1], tuple(symx(a) for a in e[2]))
+    return tuple(symx(x) if isinstance(x, tuple) else x for x in e)
+
+
+def has_special(e):
+    """does the expression contain a primitive that SympyLib evaluates differently (other than nan_to_num)?"""
+    if not isinstance(e, tuple) or not e:
+        return False
+    if (e[0] == "lib2" and e[1] in ("maximum", "minimum", "copysign")) or e[0] == "isclose" or (e[0] == "lib1" and e[1] == "sign"):
+        return True
+    return any(has_special(x) for x in e[1:] if isinstance(x, tuple)) or \
+        (e[0] == "nan_to_num" and any(has_special(v) for _, v in e[2]) and False)
+
+
+def probe_sympylib():
+    """check that the live SympyLib still behaves as `symx` assumes; -> list of problems"""
+    import sympy
+    from vector._lib import SympyLib
+    L = SympyLib()
+    a, b = sympy.symbols("a b", real=True)
+    bad = []
+    if L.nan_to_num(a, nan=0.0, posinf=1.0) is not a:
+        bad.append("SympyLib.nan_to_num is not the identity")
+    if L.maximum(a, b) is not a or L.maximum(0, b) is not b or L.minimum(a, b) is not a or L.minimum(0, b) is not b:
+        bad.append("SympyLib.maximum/minimum no longer return the first symbolic argument")
+    if L.copysign(a, b) is not a:
+        bad.append("SympyLib.copysign(a, b) is not a")
+    if L.isclose(a, b, 1e-5, 1e-8, False) != sympy.Eq(a, b):
+        bad.append("SympyLib.isclose is not Eq")
+    for name, f in (("sqrt", sympy.sqrt), ("sin", sympy.sin), ("cos", sympy.cos), ("tan", sympy.tan), ("exp", sympy.exp), ("log", sympy.log),
+                    ("sinh", sympy.sinh), ("arcsinh", sympy.asinh), ("arctan", sympy.atan), ("arccos", sympy.acos), ("absolute", sympy.Abs)):
+        if getattr(L, name)(a) != f(a):
+            bad.append(f"SympyLib.{name} is not sympy's function of that name")
+    if L.arctan2(a, b) != sympy.atan2(a, b) or L.pi != sympy.pi:
+        bad.append("SympyLib.arctan2/pi changed")
+    return bad
+
+
 def lty(t):
     if t == "S":
         return "S"
@@ -512,11 +566,12 @@ def proj(v, i, n):
     return s + (".1" if i < n - 1 else "")
 
 
-def emit_fn(name, f):
+def emit_fn(name, f, tr=lambda e: e):
     ps = " ".join(f"({lname(p)} : S)" for p in f["params"])
     lines = [f"/-- {f['where']} -/", f"def {name} {ps} : {lty(f['rtype'])} :="]
     tmpc = 0
     for tgt, val in f["body"]:
+        val = tr(val)
         if tgt[0] == "v":
             lines.append(f"  let {lname(tgt[1])} := {em(val)}")
         else:
@@ -526,7 +581,7 @@ def emit_fn(name, f):
             n = len(tgt[1])
             for i, x in enumerate(tgt[1]):
                 lines.append(f"  let {lname(x)} := {proj(tv, i, n)}")
-    lines.append("  " + em(f["ret"]))
+    lines.append("  " + em(tr(f["ret"])))
     return "\n".join(lines)
 
 
@@ -673,6 +728,20 @@ variable {{S : Type}} [Scalar S]
 section
 """
 FOOT_EXEC = "\nend\nend VE\n"
+HEAD_SYM = """import VectorModel.Prim.Real
+import VectorModel.Prim.Keys
+{imports}
+/-! The compute functions as `vector._lib.SympyLib` evaluates them (nan_to_num = id, maximum/minimum = first symbolic
+argument, copysign(a, b) = a, isclose = equality), and for every function on which the two libraries agree syntactically the
+theorem `<f>_eq : VS.<f> = VR.<f>` (regenerated every run). -/
+set_option linter.unusedVariables false
+set_option linter.unusedSimpArgs false
+set_option maxRecDepth 4096
+namespace VS
+open VK
+open scoped VR
+noncomputable section
+"""
 BODY_BEGIN = "-- BODY-BEGIN (identical in Gen/Real and Gen/Exec)\n"
 BODY_END = "-- BODY-END\n"
 
@@ -739,6 +808,16 @@ def main():
             unit_of[m] = u
     live = set()
     unit_info = {}
+    # functions on which SympyLib and NumPy agree syntactically (transitively free of max/min/copysign/isclose/sign)
+    dirty = {n for n, f in tr.ir.items() if has_special(f["ret"]) or any(has_special(v) for _, v in f["body"])}
+    changed = True
+    while changed:
+        changed = False
+        for n in tr.ir:
+            if n not in dirty and fdeps[n] & dirty:
+                dirty.add(n)
+                changed = True
+    clean = set(tr.ir) - dirty
     for u, comp in units:
         fns = [n for n in tr.ir if tr.fn_mod[n] in comp]
         # topological order of functions inside the unit
@@ -779,6 +858,40 @@ def main():
             live.add(os.path.join(GEN, kind, u + ".lean"))
         unit_info[u] = {"modules": comp, "deps": deps, "functions": order,
                         "bodyhash": hashlib.sha256(body.encode()).hexdigest()[:16]}
+        # ---- third copy (C08): the same functions as vector._lib.SympyLib evaluates them, + congruence theorems
+        sym = [HEAD_SYM.format(imports="\n".join([f"import VectorModel.Gen.Real.{u}"] + [f"import VectorModel.Gen.Sym.{d}" for d in deps]))]
+        for n in order:
+            sym.append(emit_fn(n, tr.ir[n], symx))
+            sym.append("")
+        for n in order:
+            f = tr.ir[n]
+            args = " ".join(lname(p_) for p_ in f["params"])
+            binder = ("(" + " ".join(lname(p_) for p_ in f["params"]) + " : ℝ) ") if f["params"] else ""
+            if n in clean:
+                lem = " ".join([n, "VR." + n] + [c + "_eq" for c in sorted(fdeps[n])] + ["VR.P.nanToNum_eq"])
+                sym.append(f"theorem {n}_eq {binder}: {n} {args} = VR.{n} {args} := by\n  simp only [{', '.join(lem.split())}]")
+                sym.append("")
+        for m in comp:
+            if m in tr.tables and not any(mm == m for mm, _ in tr.missing):
+                tb = tr.tables[m]
+                sym.append(emit_eval(m, tb))
+                sym.append("")
+                if all(e["fn"] in clean for e in tb["entries"]):
+                    nk = len(tb["shape"])
+                    na = tb["nscalar"] + tb["ncoord"]
+                    kb = " ".join(f"(k{i} : {KTY[s_]})" for i, s_ in enumerate(tb["shape"]))
+                    ab = "(" + " ".join(f"a{i}" for i in range(na)) + " : ℝ)"
+                    ks = " ".join(f"k{i}" for i in range(nk))
+                    as_ = " ".join(f"a{i}" for i in range(na))
+                    fns = sorted({e["fn"] + "_eq" for e in tb["entries"]})
+                    cases = " <;> ".join(f"cases k{i}" for i in range(nk))
+                    sym.append(f"/-- every variant of `{m}` is syntactically the same under SympyLib and NumPy -/")
+                    sym.append(f"theorem {m}.eval_eq {kb} {ab} : {m}.eval {ks} {as_} = VR.{m}.eval {ks} {as_} := by\n"
+                               f"  {cases} <;> simp only [{m}.eval, VR.{m}.eval, {', '.join(fns)}]")
+                    sym.append("")
+        sym.append("end\nend VS\n")
+        write_if_changed(os.path.join(GEN, "Sym", u + ".lean"), "\n".join(sym))
+        live.add(os.path.join(GEN, "Sym", u + ".lean"))
     # All.lean : ModuleId + Compute.eval
     mids = sorted(tr.tables)
     total = [m for m in mids if not any(mm == m for mm, _ in tr.missing)]
@@ -828,13 +941,24 @@ def main():
     write_if_changed(os.path.join(GEN, "Tables.lean"), "\n".join(T))
     live.add(os.path.join(GEN, "Tables.lean"))
     # remove stale generated files
-    for kind in ("Real", "Exec"):
+    symall = "\n".join(f"import VectorModel.Gen.Sym.{u}" for u, _ in units) + "\n"
+    write_if_changed(os.path.join(GEN, "Sym", "All.lean"), symall)
+    live.add(os.path.join(GEN, "Sym", "All.lean"))
+    for kind in ("Real", "Exec", "Sym"):
         d = os.path.join(GEN, kind)
         for fn in os.listdir(d):
             p = os.path.join(d, fn)
             if fn.endswith(".lean") and p not in live:
                 os.remove(p)
+    sp = probe_sympylib()
+    if sp:
+        index["errors"] = ["sympylib-probe: " + x for x in sp]
+        index["ok"] = False
+        write_if_changed(os.path.join(VERIF, "gen", "index.json"), json.dumps(index, indent=1, sort_keys=True))
+        print("translate: SympyLib no longer behaves as the symbolic copy assumes:", sp, file=sys.stderr)
+        return 3
     index.update({
+        "sym_clean": sorted(clean), "sym_dirty": sorted(dirty),
         "ok": True,
         "units": unit_info,
         "tables": tr.tables,
